@@ -235,3 +235,17 @@ package cluster
 //@   at call tlsConn).Write assert [prefix-and-message-in-one-write] arg0 == conn && count("tlsConn).Write") == 0 && len(arg1) == uint32length + len(ret("proto.Marshal$")) && ret1("proto.Marshal$") == nil
 //@   ensures [exactly-one-write-and-its-verdict] ret1("proto.Marshal$") == nil ==> count("tlsConn).Write") == 1 && result == ret1("tlsConn).Write")
 //@   noeffect tlsConn).Write
+
+// ---- C19: a pooled TLS connection stops counting as alive after *any* failed write (whatever the number of bytes
+// that got out), so the pool dials a new one for the next packet; a successful write leaves it alive; one write of the
+// whole frame under the connection's lock.
+//@ func (*tlsConn).Write
+//@   props C19
+//@   requires conn != nil && conn.connection != nil
+//@   ensures [monitor-lock-released] count("Mutex).Lock") == 1 && count("Mutex).Unlock") == 1
+//@   at call Conn).Write assert [the-whole-frame-in-one-write-under-the-lock] arg1 == b && count("Conn).Write") == 0 && count("Mutex).Lock") == 1 && count("Mutex).Unlock") == 0
+//@   ensures [any-failed-write-marks-the-connection-dead] ret1("Conn).Write") != nil ==> !conn.live
+//@   ensures [a-successful-write-leaves-it-as-it-was] ret1("Conn).Write") == nil ==> conn.live == old(conn.live)
+//@   ensures [the-write_s-own-answer] result0 == ret("Conn).Write") && result1 == ret1("Conn).Write")
+//@   noeffect Conn).Write
+//@   assigns conn.live
